@@ -10,6 +10,7 @@ VARIABLES phase, call, out
 vars == <<phase, call, out>>
 
 MCZ == ndJsonDeserialize(IOEnv.PRIORS_Z_FILE)[1].z
+MCZT == ndJsonDeserialize(IOEnv.PRIORS_Z_FILE)[1].zt
 QS == {R(n - QShift, d) : n \in QNum, d \in QDen}
 ES == {e - EShift : e \in ENum}
 SS == {R(n, d) : n \in SNum, d \in SDen}
@@ -23,18 +24,22 @@ Calls ==
     \cup {[cls |-> "LogGaussian", key1 |-> "mean",       v1 |-> m, key2 |-> "std", v2 |-> s] : m \in QG, s \in SS}
     \cup {[cls |-> "LogGaussian", key1 |-> "lin_mean",   v1 |-> e, key2 |-> "std", v2 |-> s] : e \in ES, s \in SS}
 
-NoOut == [p |-> [kind |-> "None", a |-> Q(0), b |-> Q(0)], s |-> <<>>]
+NoOut == [p |-> [kind |-> "None", a |-> Q(0), b |-> Q(0)], s |-> <<>>, t |-> <<>>]
 Init == phase = "in" /\ call \in Calls /\ out = NoOut
 Eval == /\ phase = "in"
         /\ LET p == Build(call) IN
-             out' = [p |-> p, s |-> [k \in 1..(UN + 1) |-> IF (k - 1) \in Grid(p) THEN Sample(p, k - 1) ELSE Q(0)]]
+             out' = [p |-> p, s |-> [k \in 1..(UN + 1) |-> IF (k - 1) \in Grid(p) THEN Sample(p, k - 1) ELSE Q(0)],
+                     t |-> [i \in 1..Len(TailPts) |-> TailSample(p, TailPts[i])]]      \* the tail ladder
         /\ phase' = "done"
         /\ UNCHANGED call
 Spec == Init /\ [][Eval]_vars
 
 Done == phase = "done"
 ZOk == ZAssumption
+TZOk == (phase = "in") => (TZAssumption /\ TailOrdered)      \* constant-level: once per call is enough
 MonotoneInv == Done => Monotone(out.p)
+TailMonotoneInv == Done => TailMonotone(out.p)
+TailSymmetricInv == Done => TailSymmetric(out.p)
 OntoSupportInv == Done => OntoSupport(call, out.p)
 InverseCDFInv == Done => InverseCDF(out.p)
 LinArgsInv == Done => LinArgsEquivalent(call)
@@ -47,8 +52,10 @@ DefaultInv == Done /\ call.key1 \in {"bounds", "lin_bounds"} /\ call.cls = (IF c
     /\ SpaceOf(out.p.kind) = mode
 FitsInv == Done => /\ Fits(out.p.a) /\ Fits(out.p.b)
                    /\ \A k \in 1..Len(out.s) : Fits(out.s[k])
+                   /\ \A i \in 1..Len(out.t) : IF out.p.kind \in UniKinds THEN Fits(out.t[i].w) ELSE Fits(out.t[i])
 
 Emit == (Export /\ Done) =>
     PrintT(<<"VEC", ToJson([call |-> call, p |-> out.p, space |-> SpaceOf(out.p.kind), s |-> out.s, un |-> UN,
-                            names |-> Spellings[call.cls], logform |-> LogForm(call)])>>)
+                            names |-> Spellings[call.cls], logform |-> LogForm(call),
+                            tpts |-> TailPts, t |-> out.t, zts |-> ZTS])>>)
 =============================================================================
